@@ -84,7 +84,7 @@ def _optimizer_space(tier):
     if os.environ.get('VERIF_OPT_SPACE'):        # debugging aid: "len,start,alpha;..."
         return [tuple(int(x) for x in part.split(',')) for part in os.environ['VERIF_OPT_SPACE'].split(';')]
     if tier == 'quick':
-        return [(2, 1, 1), (3, 3, 2), (2, 2, 3), (2, 4, 4), (4, 3, 5), (2, 12, 13), (4, 1, 14)]
+        return [(2, 1, 1), (3, 3, 2), (2, 2, 3), (2, 4, 4), (4, 3, 5), (2, 12, 13), (4, 1, 14), (3, 1, 15)]
     return [(3, 1, 1), (4, 3, 2), (3, 2, 3), (3, 2, 1), (3, 4, 4), (5, 3, 5),
             (3, 6, 1), (3, 7, 7), (3, 8, 8), (3, 9, 10), (3, 1, 9), (3, 12, 13), (3, 11, 12), (3, 5, 11), (5, 1, 14)]
 
@@ -688,6 +688,14 @@ def _judge_failed_run(report, rr, label, ri, histories, where):
     if s['outcome'] == 'ok':
         report.fail({'class': 'fault-swallowed'}, detail)
         return
+    if rr.get('pre_contenttypes') is not None and rr.get('contenttypes') is not None and \
+            rr['contenttypes'] != rr['pre_contenttypes']:
+        # listeners of the failed run (post_migrate: content types, permissions) wrote about models
+        # whose tables the run did not leave behind
+        created = any(e['ev'] == 'created_models' for e in rr.get('events', []))
+        if not created:
+            report.fail({'class': 'failed-run-listeners-wrote-to-the-database', 'phase': fault['phase']},
+                        dict(detail, contenttypes_before=rr['pre_contenttypes'], contenttypes_after=rr['contenttypes']))
     if post['tab'][a] != pre['tab'][a] or post['tab'][a] == -2:
         # what an earlier, completed unit of the same run created (e.g. the new
         # models of this app) is not part of the failing evolution: judge the
@@ -1165,11 +1173,15 @@ def c08(tier, replay=None):
     nsplit = _c08_interleaved(report, tier, nontrivial)
     nunch = _c08_unchanged_signature(report, tier, nontrivial)
     nlater = _c08_later_task_class_fails(report, tier, nontrivial)
+    nhint = _c08_hinted_with_fresh_app(report, tier, nontrivial)
+    report.notes.append('%d hinted, executed upgrades that install another app for the first time' % nhint)
     report.notes.append('%d runs whose second task class (purge) fails after the evolutions ran' % nlater)
     report.notes.append('%d scenarios of the unchanged-signature family (SQL-only evolutions) replayed' % nunch)
     report.coverage['distinct_nontrivial'] = len(nontrivial)
     report.coverage['exhaustive'] = len(chosen) == ngen
     report.coverage['rule'] = (
+        'Part 6: hinted, executed upgrades of one app in the run that installs another app (with an evolution '
+        'history) for the first time: that app\'s whole sequence is recorded, none of it executed.  '
         'Part 5: runs that queue the apps\' evolutions AND the purge of a stale app whose table was dropped by hand: '
         'the purge fails after the evolutions ran; nothing may be recorded for the incomplete run.  '
         'Part 4: upgrades that apply evolutions while the stored signature stays what it was (SQLMutation-only '
@@ -1963,9 +1975,9 @@ def _schema_space(tier):
         return [tuple(int(x) for x in part.split(',')) for part in os.environ['VERIF_SCHEMA_SPACE'].split(';')]
     if tier == 'quick':
         return [(2, 1, 1), (2, 2, 1), (2, 4, 4), (2, 5, 6), (2, 2, 3), (2, 6, 1), (2, 7, 7), (2, 8, 8), (2, 9, 10), (2, 1, 9),
-                (2, 10, 3), (2, 5, 11), (2, 11, 12), (2, 12, 13)]
+                (2, 10, 3), (2, 5, 11), (2, 11, 12), (2, 12, 13), (3, 1, 15)]
     return [(3, 1, 1), (3, 2, 1), (3, 4, 4), (3, 5, 6), (3, 2, 3), (4, 3, 2), (4, 3, 5), (3, 6, 1), (3, 7, 7), (3, 8, 8), (3, 9, 10), (3, 1, 9),
-            (3, 10, 3), (3, 5, 11), (3, 10, 11), (3, 11, 12), (3, 12, 13)]
+            (3, 10, 3), (3, 5, 11), (3, 10, 11), (3, 11, 12), (3, 12, 13), (4, 1, 15)]
 
 
 def _schema_check(prop, tier):
@@ -2470,6 +2482,10 @@ def _codec_pick(recs, tier, rng, clauses):
 
 
 def _c06_judge(report, rec, v, value, pos, through_db, obs, via, nontrivial):
+    if obs.get('resave_eq') is False or obs.get('resave_same_text') is False:
+        report.fail({'class': 'signature-edited-in-place-not-stored-on-second-save', 'built_from': via},
+                    {'value': repr(value)[:200], 'position': pos,
+                     'observed': {k: obs[k] for k in ('resave_eq', 'resave_same_text')}})
     if v['t'] in ('q', 'comb', 'list', 'tuple', 'dict', 'enum', 'value'):
         nontrivial.add(json_key(v, 0))
     detail = {'built_from': via, 'value': repr(value)[:300], 'position': pos, 'through_version_table': through_db,
@@ -3578,6 +3594,86 @@ def _c08_unchanged_signature(report, tier, nontrivial):
             else:
                 if new or any(x for x in st['statements']):
                     report.fail(dict(fp, **{'class': 'further-run-not-a-noop'}), detail)
+    return len(results)
+
+
+def _c08_hinted_with_fresh_app(report, tier, nontrivial):
+    """A HINTED, executed upgrade (`evolve --hint --execute` / Evolver(hinted=True)) of one app in the very
+    run that installs another app for the first time: the fresh app's whole evolution sequence is
+    recorded (none of it executed), and a later normal upgrade executes and records only what is new."""
+    from concurrent.futures import ThreadPoolExecutor
+    from .djproj import Project
+    base = ['from django.db import models', '', '',
+            'class Item(models.Model):', '    name = models.CharField(max_length=20)']
+
+    def evo(i):
+        return {'label': 'c%d' % i, 'mutations_src': ["AddField('Item', 'f%d', models.IntegerField, null=True)" % i]}
+
+    def src(n, extra=()):
+        return '\n'.join(base + ['    f%d = models.IntegerField(null=True)' % i for i in range(1, n + 1)] +
+                         ['    %s = models.IntegerField(null=True)' % x for x in extra]) + '\n'
+
+    def run_one(drv):
+        apps = ['shop', 'blog']
+        p = Project(apps, tag='c08h')
+        out = {'driver': drv, 'steps': []}
+        try:
+            p.set_installed(['shop'])
+            p.deploy('shop', src(0), [])
+            r0 = p.run({'action': 'evolve_api', 'app_prefixes': apps})
+            if r0['outcome'] != 'ok':
+                out['setup_error'] = (r0.get('error') or {}).get('msg')
+                return out
+            # shop's models change without an evolution (a hint is needed); blog arrives with a history
+            p.set_installed(apps)
+            p.deploy('shop', src(0, extra=['qty']), [])
+            p.deploy('blog', src(2), [evo(1), evo(2)])
+            if drv == 'api':
+                res = p.run({'action': 'evolve_api', 'hinted': True, 'app_prefixes': apps})
+            else:
+                res = p.run({'action': 'command', 'name': 'evolve', 'app_prefixes': apps,
+                             'options': {'hint': True, 'execute': True, 'interactive': False, 'verbosity': 0}})
+            out['steps'].append({'what': 'hinted', 'outcome': res['outcome'], 'error': (res.get('error') or {}).get('msg'),
+                                 'rows': res['post']['default']['book']['evolutions'],
+                                 'announced': [(e.get('app'), tuple(e.get('labels') or [])) for e in res['events']
+                                               if e['ev'] == 'applying_evolution']})
+            # a later, normal upgrade: blog gains c3
+            p.deploy('blog', src(3), [evo(1), evo(2), evo(3)])
+            res = p.run({'action': 'command', 'name': 'evolve', 'app_prefixes': apps,
+                         'options': {'execute': True, 'interactive': False, 'verbosity': 0}})
+            out['steps'].append({'what': 'normal', 'outcome': res['outcome'], 'error': (res.get('error') or {}).get('msg'),
+                                 'rows': res['post']['default']['book']['evolutions'],
+                                 'announced': [(e.get('app'), tuple(e.get('labels') or [])) for e in res['events']
+                                               if e['ev'] == 'applying_evolution']})
+            return out
+        finally:
+            p.destroy()
+    with ThreadPoolExecutor(4) as ex:
+        results = list(ex.map(run_one, ('cmd', 'api')))
+    for out in results:
+        report.coverage['evaluations'] += 1
+        if out.get('setup_error'):
+            report.notes.append('C08 hinted family: setup failed: %s' % out['setup_error'])
+            continue
+        report.coverage['traces_validated_against_impl'] += 1
+        nontrivial.add('hinted-fresh:%s' % out['driver'])
+        fp = {'family': 'hinted-with-fresh-app', 'driver': out['driver']}
+        h = out['steps'][0]
+        if h['outcome'] != 'ok':
+            report.notes.append('C08 hinted family: the hinted upgrade did not run (%s): %s' % (out['driver'], h['error']))
+            continue
+        blog = [r[1] for r in h['rows'] if r[0] == 'blog']
+        if sorted(blog) != ['c1', 'c2']:
+            report.fail(dict(fp, **{'class': 'fresh-app-sequence-not-recorded-once'}), dict(out, recorded=blog))
+            continue
+        if any(a == 'blog' for a, _l in h['announced']):
+            report.fail(dict(fp, **{'class': 'fresh-app-evolutions-executed'}), out)
+        if len(out['steps']) > 1:
+            n = out['steps'][1]
+            blog2 = [r[1] for r in n['rows'] if r[0] == 'blog']
+            if n['outcome'] != 'ok' or sorted(blog2) != ['c1', 'c2', 'c3'] or \
+                    [l for a, ls in n['announced'] if a == 'blog' for l in ls] != ['c3']:
+                report.fail(dict(fp, **{'class': 'later-upgrade-of-the-fresh-app-wrong'}), out)
     return len(results)
 
 
